@@ -9,9 +9,11 @@ def parseChunks (env : Env) (chunks : List Bytes) : Outcome ReqErr (Request × R
 def dispatchSync (fn : String) (args : List String) (impl : String) : Option Verdict :=
   match fn, args with
   | "req_parse", [bytes, cuts, peer, oracle, expect] =>
-    match unhex bytes, peer.splitOn "|" with
+    -- the request bytes may use the compact `hexz` form (large bodies are a generated pattern, see Driver/Http.lean)
+    match unhexz bytes, peer.splitOn "|" with
     | some bs, [ip, port] =>
-      let env : Env := ⟨strBytes ip, port.toNat?.getD 0, oracleFn (parseOracle oracle)⟩
+      let tab := mkOracleTab (parseOracle oracle)
+      let env : Env := ⟨strBytes ip, port.toNat?.getD 0, tab.lookup⟩
       let model :=
         match parseChunks env (applyCuts bs cuts) with
         | .panic => "PANIC | - | -"
